@@ -297,4 +297,15 @@ theorem objSet_energy (x : Label → Rat) (s : PolyState) (hs : TermsOK s) (k : 
       simp only [objSet, objGet, hm, Bool.false_eq_true, if_false, polyEnergy, ih hr]
       grind
 
+theorem termVal_map (x : Label → Rat) (f : Label → Label) (t : LTerm) : termVal x (t.map f) = termVal (fun v => x (f v)) t := by
+  induction t with
+  | nil => rfl
+  | cons v r ih => simp only [List.map_cons, termVal, ih]
+
+/-- the relabelled term has the value of the old term at the assignment read through the mapping (mapping injective on the term) -/
+theorem relabelTerm_value (x : Label → Rat) (m : List (Label × Label)) (t : LTerm) (hinj : (t.map (mapLabel m)).Nodup) :
+    termVal x (relabelTerm m t) = termVal (fun v => x (mapLabel m v)) t := by
+  unfold relabelTerm
+  rw [dedup_of_nodup _ hinj, termVal_map]
+
 end Red
